@@ -12,881 +12,440 @@ Definition show_fres (r : fres) : string :=
   end.
 Definition check (rs : list rune) : string := digest (show_fres (format_res rs)).
 Definition full (rs : list rune) : string := show_fres (format_res rs).
-Eval vm_compute in ("<<<M310>>>" ++ check (runes_of_ascii "root packet rootA {@calculatedFrom(
-""""
-)match packetx as x_y_z
-{ // `tick` ""quote"" 'q'
-""" ++ [28040; 24687]%N ++ runes_of_ascii """ : crc , ""a	b""
-    :
-i8i8, ""it's"" : msg_type
-10
-    :
-string_,0123456789:int ,
-}	,	zchar[ 0123456789
-    ]
-_x	`say ""hi""` , @lengthOf(	lengthOf )
-repeat
-    //x
-    chars
-{ repeat i16 u , }, i16 u @lengthOf( Pad ) `say ""hi""`
-, string
-    u8x @calculatedFrom(
-    ""\n""
-    ) //	t
-`" ++ [233]%N ++ runes_of_ascii "` //x
-,MetaDataX`" ++ [233]%N ++ runes_of_ascii "` , char[] Header  @lengthOf(
-    //	t
-    Foo )`u8 x,`, //
+Eval vm_compute in ("<<<M1458>>>" ++ check (runes_of_ascii "// top
+options
+    // c0
+{ // c1
+LittleEndian // c2a
+  // c2b
+= // c3
+true // c4
+; // c5a
+  // c5b
+FixedStringPadFromLeft // c6a
+  // c6b
+= true // c8
+; FixedStringPadChar = // c11
+'0' // c12
+;
+    // c13
 }
-// c
-// " ++ [128512]%N ++ runes_of_ascii " emoji
-packet  repeatCount	{
-@tag( 7
-    // `tick` ""quote"" 'q'
-    )
-char[] x_y_z //x
-`it's` , @calculatedFrom(""`tick`"" )repeat o,
-    @lengthOf(
-    pack )
-@lengthOf( u128 ) @lengthOf(stringy	)
-match zchar as MetaDataX { [ ""// no comment"",0 ] // " ++ [27880; 37322]%N ++ runes_of_ascii "
-: options1
-    ,
-    [
-    ""a	b"" ,
-""`tick`""
-    ,""" ++ [233]%N ++ runes_of_ascii "t" ++ [233]%N ++ runes_of_ascii """, 7
-    // trailing space 
-    , 0123456789
-] :	string_
-    , ""a\""b"" :len, ""a\\"" : MetaDataX	, }, u8x
-{ repeat
-chars MetaDataX
-`two words`, repeat Header	len `` , pack { u16
-asx @calculatedFrom(
-    ""`tick`"")
-    //x
-    `line1
-line2` , f64 string_ ,float32 zchar // " ++ [27880; 37322]%N ++ runes_of_ascii "
-@lengthOf(i8i8 )
-, As @lengthOf(
-    //	t
-    _x ) `u8 x,`, } ,int32 roots`doc` , }
-    , } packet As { @lengthOf( leftPad )
-@calculatedFrom(	"""" ) x_y_z
-@lengthOf(
-    i8i8 )	`" ++ [233]%N ++ runes_of_ascii "` , repeat float32 Z9_
-    //	t
-    ,// `tick` ""quote"" 'q'
-pack ,
-    msg_type
-, // `tick` ""quote"" 'q'
-@rightPad // a // b
-(
-'0' )
-// a // b
-// @lengthOf(
-u16 crc ,
-    @lengthOf( chars)	repeat
-x`it's`
-, } packet body/// triple
-{@calculatedFrom(  """ ++ [28040; 24687]%N ++ runes_of_ascii """ ) T @lengthOf(
-    u8x ) , @tag( 3)
-    // packet A { u8 x, }
-    u32
-    u
-//	t
-// @lengthOf(
-@lengthOf(
-    msg_type
-    // c
-    )
-    , @calculatedFrom(
-""" ++ [128512]%N ++ runes_of_ascii """
-)	repeat char[ 10] A // c
-, x{ string o
-, match  Pad // " ++ [27880; 37322]%N ++ runes_of_ascii "
-as rootA { ""packet"" :matchKey } ,u64
-x_y_z ,char[]
-leftPad @lengthOf( float // @lengthOf(
-)
-    , /// triple
-}
+    // c14
+packet // c15a
+  // c15b
+Trade
+    // c16
+{ string clOrdID
+    // c19
+, char[]
+    // c21
+Px // c22
+, // c23
+u32 // c24a
+  // c24b
+x // c25
+, // c26a
+  // c26b
+} // c27
+packet // c28
+Reject
+    // c29
+{ // c30
+int32 Side2 // c32
 ,
-    repeat uint8x falsey	`" ++ [233]%N ++ runes_of_ascii "`, @lengthOf( Z9_ )u8 f32a , @tag( 0123456789 )
-// @lengthOf(
-// `tick` ""quote"" 'q'
-u8 matchKey ``
-, Pad trueish `say ""hi""`
-    ,}
-")).
-Eval vm_compute in ("<<<M948>>>" ++ check (runes_of_ascii "//
-root packet
-    T
-    { match Foo as Packet {
-""\n"":
-// c
-// a // b
-roots""abc"": Foo ,3 : packetx,
-}, match Z9_ as u8x { 65535 :
-tag , }	, Pad{
-i16 BodyLength ,
-    stringy
-    chars, uint8 trueish
-    /// triple
-    ,
-} ,	pack {
-    match//	t
-asx
-as
-stringy { 0 :matchKey } // " ++ [128512]%N ++ runes_of_ascii " emoji
-,	repeat
-char uint8x
-, }
-// @lengthOf(
-//
+    // c33
+repeat // c34
+char[ // c35a
+  // c35b
+3 ] // c37
+clOrdID // c38a
+  // c38b
+, i32 // c40
+tag7 // c41a
+  // c41b
+, // c42a
+  // c42b
+} // c43a
+  // c43b
+packet
+    // c44
+Leg
+    // c45
+{ } root
+    // c48
+packet Quote
+    // c50
+{
+    // c51
+string // c52
+Side2 , string
+    // c55
+lastPx
+    // c56
 ,
-    @calculatedFrom( ""\n"")
-    body,
-_x , string tag , char[ // packet A { u8 x, }
-3 ]rootA`a\`
-    // c
-    ,
-@calculatedFrom(""\n"" )
-@lengthOf( uint8x
-    ) char[] A , i8
-    // @lengthOf(
-    string_`{ , }` ,
-    // packet A { u8 x, }
-    } packet body {
-    char[] o	, string options1 ,
-repeat // a // b
+    // c57
+InSym58 { int16 OrderId // c61a
+  // c61b
+, // c62a
+  // c62b
+Reject // c63
+, // c64
+i8 Qty // c66
+,
+    // c67
+i64
+    // c68
+venue , f32 // c71
+Note , // c73
+} // c74
+, // c75a
+  // c75b
 char[]
-    pack, u128{ packetx options1
+    // c76
+count // c77
+, zchar[ 9 ] // c81a
+  // c81b
+price
+    // c82
+, // c83
+u16 // c84a
+  // c84b
+Qty
+    // c85
+,
+    // c86
+match // c87a
+  // c87b
+Qty // c88
+as // c89
+Body
+    // c90
+{ // c91
+69 // c92a
+  // c92b
+: // c93
+Leg , 48 // c96a
+  // c96b
+: // c97
+Trade // c98a
+  // c98b
+,
+    // c99
+51
+    // c100
+: // c101
+Reject // c102a
+  // c102b
+, // c103
+} // c104
+, u16
+    // c106
+Acct // c107
+@calculatedFrom( // c108
+""CRC32"" // c109a
+  // c109b
+) , // c111a
+  // c111b
+} ")).
+Eval vm_compute in ("<<<M2002>>>" ++ check (runes_of_ascii "// top
+  	root 
+    // c0
+  packet
+// c1
+	  msg_type 
+
+// c2
+
+	{ 
+
+    // c3
+		i64  
+      // c4
+		options1  
+  // c5
+	, 
+// c6
+  @lengthOf(
+	// c7
+      f32a
+// c8
+	) 
+      // c9
+  repeat 
+    // c10
+	uint16 
+  // c11
+		Foo
+    // c12
+  ,
+    // c13
+
+	@calculatedFrom( 
+  // c14
+		""x y"" 
+
+// c15
+
+) 
+    // c16
+  	repeat 
+
+// c17
+int64
+        // c18
+  	pack
+
+    // c19
+
+	, 
+
+    // c20
+	@leftPad 
+    // c21
+(
+	    // c22
+    ' ' 
+    // c23
+    ) 
+    // c24
+		uint8
+    // c25
+	Foo
+// c26
+, 
+        // c27
+  }
+// c28
+	packet 
+      // c29
+	rootA  
+  // c30
+
+	{
+    // c31
+  f32a
+// c32
+
+x 
+
+// c33
+
+	`two words` 
+  // c34
+		, 
+      // c35
+  char 
+
+    // c36
+  asx
+    // c37
+    	@lengthOf( 
+
+    // c38
+      falsey 
+	// c39
+) 
+
+// c40
+	`u8 x,` 
+// c41
+  , 
+
+// c42
+    @lengthOf( 
+  // c43
+	i64_ 
+    // c44
+	)
+// c45
+
+  uint16
+// c46
+  	chars
+	    // c47
+  	,  
+      // c48
+  @tag(
+    // c49
+    0 
+        // c50
+
+  ) 
+	// c51
+    string
+
+    // c52
+	_x 
+        // c53
+@calculatedFrom( 
+
+// c54
+	""abc""  
+  // c55
+  )
+
+// c56
+`// not a comment` 
+
+// c57
+
+, 
+        // c58
+	}  
+      // c59
+")).
+Eval vm_compute in ("<<<M165>>>" ++ check (runes_of_ascii "packet uint8x { @lengthOf( Pad )
+    Foo ,} root packet Foo  {
+char[] i64_
+    @calculatedFrom( ""a	b"" ) `u8 x,`
+    // @lengthOf(
+    , zchar[
+    // trailing space 
+    3]
+    tag
+@lengthOf( tag ), @lengthOf(	falsey) options1
+//x
+/// triple
+@lengthOf(  repeatCount ) ,
+string
+matchKey `crlf
+line` ,} packet metadata { //	t
+uint32
+    i8i8 , }
+root packet
+Header {
+@lengthOf( _x ) @lengthOf(
+A )metadata
+    tag
+    // trailing space 
+    `
+` ,x_y_z `tab	here`
+    ,
+    Pad // " ++ [128512]%N ++ runes_of_ascii " emoji
+, @calculatedFrom(
+    """ ++ [128512]%N ++ runes_of_ascii """ )
+    //x
+    repeat string f32a`crlf
+line`, string packetx	@calculatedFrom( ""a\\""
+)
+    , }  packet
+    // packet A { u8 x, }
+    u8x { pack, @calculatedFrom( ""// no comment"" // `tick` ""quote"" 'q'
+)packetx, match options1// trailing space 
+as chars { ""1"" :
+Logon
+// a // b
+// a // b
+, 7 :
+trueish } ,
+match asx  as
+    /// triple
+    Logon {	[ 3 ]: _x , [
+    ""// no comment"" , 7 , """ ++ [233]%N ++ runes_of_ascii "t" ++ [233]%N ++ runes_of_ascii """  ,""it's""
+,1 ]
+    : i8i8 // " ++ [27880; 37322]%N ++ runes_of_ascii "
+[
+/// triple
+// " ++ [27880; 37322]%N ++ runes_of_ascii "
+""1"" ] : T , } , } // a // b")).
+Eval vm_compute in ("<<<M1427>>>" ++ check (runes_of_ascii "options {
+    LittleEndian = true;
+    StringPrefixLenType = u32;
+    FixedStringPadChar = '0';
+}
+packet Logout {
+    repeat InMsgkind49 {
+        u8 pad0,
+    },
+    repeat char[5] seqNo,
+    repeat u8 price,
+}
+packet Party {
+    zchar[7] Qty,
+}
+packet Logon {
+    repeat InRef10 {
+        string price,
+        char[] sym,
+        repeat Logout,
+    },
+    repeat char[3] count,
+    repeat Party,
+    char[] tag7,
+    @rightPad('0') char[2] clOrdID,
+}
+packet Order {
+    InTail13 {
+        Party,
+    },
+    repeat char[4] count,
+}
+root packet Cancel {
+    Logout,
+    @leftPad('0') char[9] msgKind,
+    string lastPx,
+    string tag7,
+    zchar[1] OrderId,
+    repeat Party,
+    u16 sym,
+    u16 Acct @lengthOf(Body),
+    match sym as Body {
+        [24, 44] : Logout,
+        160 : Order,
+        91 : Logon,
+        43 : Party,
+    },
+    u16 Tail @calculatedFrom(""CRC32""),
+}
+")).
+Eval vm_compute in ("<<<M5>>>" ++ check (runes_of_ascii "root packet // a // b
+chars{
+    u32
+u8x `it's`
+    , A o
+,
+Packet {u/// triple
+`doc` , repeat
+// @lengthOf(
+// " ++ [128512]%N ++ runes_of_ascii " emoji
+Header
+    u8x  ,
+i8i8
+As , } , @calculatedFrom(
+// `tick` ""quote"" 'q'
+// trailing space 
+""a\\"" ) charz
+    { //x
+char[]a1 , //
+string Pad , x repeatCount
+, metadata {
+chars{ body`a\`  , match
+    trueish as lengthOf
+    { 0:u8x
+    , } , match packetx as	string_  {0123456789
+:BodyLength , } , } ,
+repeat calculatedFrom
+    roots
     ,
 repeat
 Packet
-,repeat // trailing space 
-int `` // " ++ [27880; 37322]%N ++ runes_of_ascii "
-, u16
-Logon	,	} ,  match
-    T as x_y_z {
-    255 : Header ,
-    1 :
-    f32a , """ ++ [128512]%N ++ runes_of_ascii """
-:	Pad
-// a // b
-// a // b
-""abc"" :
-    /// triple
-    A } ,	@tag(// " ++ [27880; 37322]%N ++ runes_of_ascii "
-00
-// " ++ [128512]%N ++ runes_of_ascii " emoji
-// @lengthOf(
-) int8 i8i8 @calculatedFrom( """ ++ [28040; 24687]%N ++ runes_of_ascii """) `tab	here`, @lengthOf(
-    matchKey )
-repeat uint16
-// a // b
-// trailing space 
-roots `doc`
-    ,f64 a1 ,@lengthOf( metadata
-    // " ++ [27880; 37322]%N ++ runes_of_ascii "
-    )
-    // @lengthOf(
-    Foo
-@lengthOf(
-msg_type )	`" ++ [233]%N ++ runes_of_ascii "` , } packet /// triple
-tag{@rightPad
-( '0' )char[]
-    x
-    @calculatedFrom(
-    ""a\\"")
-    ,
-    float  @calculatedFrom( ""\" ++ [233]%N ++ runes_of_ascii """  ) `
-`// " ++ [27880; 37322]%N ++ runes_of_ascii "
-,
-@calculatedFrom(
-    ""{,}"" ) repeat zchar[ 00 ]
-    i64_  `" ++ [28040; 24687; 31867; 22411]%N ++ runes_of_ascii "`
-,
-char[ 007
-    ] charz ,
-    } packet metadata {
-    string_ {
-    repeat A
-    , repeat char[// trailing space 
-00
-] A// " ++ [128512]%N ++ runes_of_ascii " emoji
-, i32 i64_ @lengthOf( body )  `" ++ [233]%N ++ runes_of_ascii "`
-    , //x
-repeat
-    //x
-    zchar `say ""hi""` ,} ,
-}")).
-Eval vm_compute in ("<<<M4195>>>" ++ check (runes_of_ascii "packet o {
-    @tag(0)
-    match leftPad as metadata {
-        1 : calculatedFrom,
-        7 : i64_,
-        ""it's"" : i64_,
-        0123456789 : repeatCount,
-        0 : Foo,
-    },
-    lengthOf {
-        A `doc`,
-    },
-    char[3] matchKey `{ , }`,
-    leftPad {
-        repeat u8 options1,
-        body @calculatedFrom(""" ++ [128512]%N ++ runes_of_ascii """),
-        zchar {
-            // `tick` ""quote"" 'q'
-            u64 Logon @lengthOf(u8x),
-            char[007] packetx @lengthOf(zchar) `
-            `,
-        },
-        repeat metadata x,
-    },
-    u32 repeatCount,
-    @tag(10)
-    @lengthOf(T)
-    u16 repeatCount `say ""hi""`,/// triple
-    repeat u128 {
-        //
-        // packet A { u8 x, }
-        zchar[4294967296] BodyLength,
-    },
-    i32 x `doc`,
-}
-
-packet MetaDataX {
-    // a // b
-    @tag(7)
-    repeat lengthOf,
-}
-
-root packet As {
-    @lengthOf(lengthOf)
-    match _x as T {
-        ""packet"" : string_,
-        3 : BodyLength,
-        """ ++ [128512]%N ++ runes_of_ascii """ : i64_,
-        0 : lengthOf,
-        /// triple
-        7 : Logon,
-    },
-    Z9_ @calculatedFrom(""\" ++ [233]%N ++ runes_of_ascii """),
-    float32 int @lengthOf(msg_type) `// not a comment`,
-    char[] A @calculatedFrom(""\n""),
-    @tag(4294967296)
-    i8i8 {
-        uint32 u8x,
-    },
-    zchar[00] uint8x,
-    repeat msg_type string_,
-    repeat zchar[007] Pad `doc`,
-    match rootA as stringy {
-        007 : leftPad,
-        [""" ++ [233]%N ++ runes_of_ascii "t" ++ [233]%N ++ runes_of_ascii """, 7] : x,
-    },
-}")).
-Eval vm_compute in ("<<<M1283>>>" ++ check (runes_of_ascii "packet
-u
-{ float64 A @calculatedFrom(
-    // @lengthOf(
-    ""it's"" // packet A { u8 x, }
-) ,  string roots  , @rightPad (// packet A { u8 x, }
-'\x00' ) char[]int @lengthOf( // a // b
-metadata ) , // trailing space 
-u8x {
-    int
-{  f64
-    Pad
-,asx{
-repeat tag `two words` ,rootA , u16 matchKey `
-` ,
-} , repeat
-roots { // @lengthOf(
-options1 @calculatedFrom( ""a\""b"" // " ++ [27880; 37322]%N ++ runes_of_ascii "
-)
-    ,
-char[]
-    chars
-, } , float64 zchar ,
-    }
-    , // c
-} , uint16 leftPad, uint8 f32a @lengthOf( i8i8 ) , repeat
-float64 stringy
-, i8i8
-{roots@lengthOf( repeatCount ) , }
-    ,
-repeat matchKey	, @leftPad	(' ' ) match	int // @lengthOf(
-as trueish{
-    """": a1
-    ,00 : a1,
-1 : crc , }
-,
-    // trailing space 
-    } root
-    packet f32a
-    // trailing space 
-    {@tag(0 ) // " ++ [27880; 37322]%N ++ runes_of_ascii "
-zchar[ 4294967296 ]
-tag
-    , @tag(
-    4294967296
-) match	uint8x  as calculatedFrom {	""""  :BodyLength""a\\"" : MetaDataX, """ ++ [233]%N ++ runes_of_ascii "t" ++ [233]%N ++ runes_of_ascii """ : u128,
-    } /// triple
-,
-    } options {
-x = i8 x =
-' '
-    x_y_z='\x00'zchar=	""" ++ [128512]%N ++ runes_of_ascii """// c
-;
-BodyLength = float32
-    ; }
-// packet A { u8 x, }
-//
-root packet
-    Packet { }
-MetaData // a // b
-roots { zchar u8x /// triple
-`
-` ,// trailing space 
-char[ 42 //x
-]	uint8x ,
-//
-// " ++ [128512]%N ++ runes_of_ascii " emoji
-asx lengthOf`// not a comment` ,
-Packet stringy
-, repeatCount len``
-, } // c")).
-Eval vm_compute in ("<<<M4417>>>" ++ check (runes_of_ascii "packet i8i8 {
-    @lengthOf(body)
-    // trailing space 
-    // " ++ [128512]%N ++ runes_of_ascii " emoji
-    @lengthOf(T)
-    calculatedFrom @calculatedFrom(""""),
-    uint32 x `crlf
-        line`,
-    uint64 string_ `{ , }`,
-    i64 _x @calculatedFrom(""a	b"") `doc`,
-    @lengthOf(len)
-    asx `doc`,
-    charz `two words`,
-}
-
-packet u {
-    @rightPad()
-    repeat u128 u8x,// trailing space 
-    float64 stringy @calculatedFrom(""" ++ [128512]%N ++ runes_of_ascii """) `crlf
-        line`,
-    @rightPad()
-    @tag(10)
-    repeat options1 `crlf
-        line`,
-    zchar[0] i8i8,
-    int16 matchKey @calculatedFrom(""CRC32""),
-}
-
-packet string_ {
-    zchar @calculatedFrom(""packet""),
-    repeat asx chars `tab	here`,
-}
-
-packet falsey {
-    body BodyLength `two words`,
-    match Z9_ as lengthOf {
-        4294967296 : roots,
-        // " ++ [27880; 37322]%N ++ runes_of_ascii "
-    },
-    char[3] asx `crlf
-        line`,
-}
-
-root packet float {
-    repeat i8i8,
-    @lengthOf(options1)
-    roots roots,
-    repeat zchar[1] pack,
-    i64_,
-    falsey ``,
-    match options1 as x_y_z {
-        0 : int,
-    },
-    zchar[007] A @calculatedFrom(""a	b""),
-    trueish {
-        repeat char[] i8i8 `doc`,
-    },
-    i8i8 `
-        `,
-    uint8 roots `two words`,
-}")).
-Eval vm_compute in ("<<<M610>>>" ++ check (runes_of_ascii "
-packet  Packet { }
-// @lengthOf(
-// packet A { u8 x, }
-packet f32a{ f32 zchar @calculatedFrom( ""\n"" ) ,
-match
-    float
-    as
-stringy { ""1"" :
-    options1
-""x y"" : pack
-, [
-// " ++ [27880; 37322]%N ++ runes_of_ascii "
-//	t
-""`tick`""
-,
-""a\""b"",
-""// no comment"" ,
-// @lengthOf(
-/// triple
-7,
-""1"" ] : leftPad , 007	:
-    Packet""" ++ [28040; 24687]%N ++ runes_of_ascii """/// triple
-:
-    x_y_z
-    , //x
-},
-@rightPad (
-)
-repeat zchar[ 255] u8x`it's` // " ++ [27880; 37322]%N ++ runes_of_ascii "
-, @calculatedFrom(  ""abc"" // @lengthOf(
-) match	float as uint8x { ""\n"" :len , [1 ]
-: crc[
-    ""packet"" , 0123456789
-, ""\n""
-    // trailing space 
-    ] : asx , """": calculatedFrom
-""\" ++ [233]%N ++ runes_of_ascii """ :
-    roots,
-    } ,	trueish
-    , @lengthOf(
-    i8i8
-)string// @lengthOf(
-body `doc`, @lengthOf(
-    // a // b
-    o ) u32 u , @leftPad
-    (	'0' ) match	zchar	as lengthOf {// `tick` ""quote"" 'q'
-007 // trailing space 
-:  leftPad , } , }packet BodyLength{ a1
-{	repeat
-    char[] calculatedFrom , }
-    , @calculatedFrom(  ""1"" ) repeat
-roots `" ++ [233]%N ++ runes_of_ascii "`,
-@lengthOf( u128 )
-    _x  , match a1 as Logon
-    { 1: len , // a // b
-} ,
-@calculatedFrom(""packet"" ) charz x `tab	here`
-,
-    i64
-    matchKey ,
-//x
-/// triple
-}")).
-Eval vm_compute in ("<<<M4515>>>" ++ check (runes_of_ascii "packet charz {
-    zchar @lengthOf(body),
-    string BodyLength ``,
-    float `" ++ [233]%N ++ runes_of_ascii "`,
-    @lengthOf(len)
-    @tag(255)
-    @calculatedFrom(""{,}"")
-    a1 int `two words`,
-    char[3] float @calculatedFrom(""CRC32""),
-    repeat int32 stringy,//
-    @tag(3)
-    @tag(3)
-    a1 {
-        match chars as roots {
-            ""it's"" : o,
-            ""CRC32"" : stringy,
-            0123456789 : Pad,
-            [""a	b"", """ ++ [128512]%N ++ runes_of_ascii """] : body,
-        },
-        char[42] u8x,
-        char[255] x_y_z @calculatedFrom(""packet""),
-        match body as BodyLength {
-            10 : zchar,
-            007 : uint8x,
-            ""a\""b"" : Header,
-            ""x y"" : chars,
-            007 : f32a,
-        },
-    },
-    match T as stringy {
-        10 : float,
-        // trailing space 
-        0 : string_,
-        10 : crc,
-        7 : chars,
-        7 : body,
-    },
-    repeat crc `
-    `,
-}
-
-MetaData roots {
-    char[] string_ `{ , }`,
-}
-
-root packet As {
-    @rightPad(' ')
-    i64 leftPad @calculatedFrom(""abc"") `doc`,
-    char[] options1,
-}")).
-Eval vm_compute in ("<<<M502>>>" ++ check (runes_of_ascii "  root packet  roots { @tag(
-    0123456789) repeat As msg_type ,
-    roots
-@calculatedFrom(	""abc""),@rightPad (
-)// " ++ [27880; 37322]%N ++ runes_of_ascii "
-Pad {  int32
-rootA@calculatedFrom(// c
-""1"" )
-, repeat int
-    float `say ""hi""`
+    ,int32 Logon, }
     ,// c
-zchar[
-    65535 ]  i8i8 @calculatedFrom(""a\\""	)// c
-,
-    } , // `tick` ""quote"" 'q'
-@calculatedFrom(
-    ""1"" // `tick` ""quote"" 'q'
-)
-i8i8 @lengthOf( x),@tag(7 )
-    match T as repeatCount
-{ ""a\\"" :
-o [//
-""""
-, // @lengthOf(
-""it's""
-]	:
-    i64_ , 10 :
-    trueish , }// @lengthOf(
-,
-    Z9_
-, // a // b
-@calculatedFrom(
-"""" ) @leftPad  (' ' )  f32 zchar @lengthOf( charz ) , @leftPad
-// " ++ [27880; 37322]%N ++ runes_of_ascii "
-// c
-(
-    ) falsey @lengthOf(
-BodyLength )
-    ,
-// a // b
-// " ++ [27880; 37322]%N ++ runes_of_ascii "
-} packet
-    leftPad { // trailing space 
-u8 //x
-msg_type@calculatedFrom(""packet"")
-`u8 x,`
-    , @lengthOf( chars ) char[]  Packet
-, //
-@leftPad
-('0' ) int64 As ,
-    char[]  Packet
-// packet A { u8 x, }
-//
-, // a // b
-@calculatedFrom(  ""\n"" ) x @calculatedFrom( ""\n""
-    ) , // `tick` ""quote"" 'q'
-}")).
-Eval vm_compute in ("<<<M3644>>>" ++ check (runes_of_ascii "
-root 
-	//
-// `tick` ""quote"" 'q'
-    packet
-lengthOf	{
-
-repeat 
-char[]  asx	`// not a comment`// trailing space 
-	,
-    lengthOf  {
-string
-options1
-,  char[] A @calculatedFrom(	""\n""
-) , int16
-trueish
-    , },
-repeat  int16
-	stringy ,
-	string 
-Logon`{ , }`  , @lengthOf( 
-metadata
-
-    )
-
-    match
-	trueish as
-Foo 
-{  00  :	T
-    ,	7	:
-Z9_
-
-    , }, 
-string_
-	a1
-`" ++ [28040; 24687; 31867; 22411]%N ++ runes_of_ascii "` // packet A { u8 x, }
-
-	,  } 
-packet zchar {
-@calculatedFrom( ""x y""	//x
-
-  )
-	repeatCount
-`
-` ,  match
-    //
-  	stringy 
-as
-
-    u {  255	// `tick` ""quote"" 'q'
-:
-charz }  ,	zchar[ 0123456789
+}, repeatCount,
+    @lengthOf( float) match trueish as Header { [ ""{,}"" , ""1""
 ]
-	    // a // b
-    Z9_ @lengthOf( crc
-    )`it's`
-, @leftPad 
-('\x00'	) 
-zchar[
-0 
+    : // " ++ [27880; 37322]%N ++ runes_of_ascii "
+f32a ,} ,	i16 chars
+    , match As  as Pad { 3: f32a , [ 4294967296
+    ] : body,[	""{,}""
 ]
-	rootA@calculatedFrom(""CRC32""),@lengthOf( leftPad	)
-// packet A { u8 x, }
-    Foo @calculatedFrom( ""{,}""
-	) ,
-uint32
-    Foo `// not a comment`
-    ,	f32
-
-    float
-
-    ,
-repeat matchKey ,
-    Logon @lengthOf( rootA
-	)
-    `" ++ [28040; 24687; 31867; 22411]%N ++ runes_of_ascii "`
-    ,
-}
-")).
-Eval vm_compute in ("<<<M3568>>>" ++ check (runes_of_ascii "
-// top
-options// c0
-      {
-// c1
-chars 	 // c2a
-  	// c2b
-	= ""a\\"" 	 // c4a
-
-// c4b
-  } 	 // c5a
-  // c5b
-  packet 
-    // c6
-		Z9_	// c7a
-	// c7b
-{// c8a
-// c8b
-
-  match  // c9
-    	BodyLength 
-    // c10
-
-as
-
-    roots
-// c12
-      { 
-""" ++ [28040; 24687]%N ++ runes_of_ascii """ 	 // c14a
-      // c14b
-
-:falsey 
-
-    // c16
-, 
-      // c17
-
-00
-	    // c18
-    :	u128// c20a
-
-// c20b
-    0 
-// c21
-	: 
-    // c22
-	len,  // c24a
-    // c24b
-	007// c25
-: 
-      // c26
-    f32a}
-
-    // c28
-    	, @tag( 
-        // c30
-
-	3 // c31
-    )
-@calculatedFrom(// c33
-
-""`tick`""
-// c34
-
-	)  @leftPad  ( 
-// c37
-
-	' '	)  // c39
-  	string  // c40
-  asx	// c41
-    , 	 // c42a
-      // c42b
-
-	string  // c43a
-    // c43b
-  u @lengthOf( 
-options1 ) 	 // c47a
-	// c47b
-	,
-	float32	// c49a
-    // c49b
-i64_@calculatedFrom(
-
-    ""a\""b"" // c52a
-  // c52b
-  	) // c53
-	  , // c54
-  } 	 // c55
-")).
-Eval vm_compute in ("<<<M826>>>" ++ check (runes_of_ascii "packet i8i8
-{
-    @leftPad
-    // c
-    (// " ++ [128512]%N ++ runes_of_ascii " emoji
-'0'
-    // @lengthOf(
-    ) i16 int ,@calculatedFrom( ""\n"" ) crc @calculatedFrom(""abc"" //	t
-) ,
+: u8x // `tick` ""quote"" 'q'
+, ""a	b"" :
+    Z9_,
     // packet A { u8 x, }
-    int16 trueish `it's`  , // trailing space 
-@rightPad (' ' )@tag(
-3 ) @calculatedFrom( """" ) pack
-{ i64_ falsey  ,
-i8i8  repeatCount , repeat u16 pack  , u128
-//x
-// " ++ [27880; 37322]%N ++ runes_of_ascii "
-@calculatedFrom( ""it's""
-    ) `" ++ [233]%N ++ runes_of_ascii "`
-, },
-@calculatedFrom( ""1"")
-match i64_ as a1{ 42
-:MetaDataX,[ ""{,}"",""abc""
-    , ""`tick`"",
-10
-    ]
-    : asx ,//
-65535
-: string_ }//x
-, @calculatedFrom(	""" ++ [128512]%N ++ runes_of_ascii """ )  @lengthOf( _x ) @rightPad ( ' '
-    ) x
-    {// packet A { u8 x, }
-f32 tag
-    @lengthOf(	calculatedFrom) ,	u32 Logon
-    `" ++ [28040; 24687; 31867; 22411]%N ++ runes_of_ascii "`, } , @lengthOf( // " ++ [128512]%N ++ runes_of_ascii " emoji
-zchar ) Packet matchKey ,@leftPad/// triple
-( '0') f32 charz
-`
-`//x
-, @rightPad
-    ('0'
-) char[3 ] stringy `tab	here`
-, }")).
-Eval vm_compute in ("<<<M1167>>>" ++ check (runes_of_ascii "packet a1 {
-@tag(
-    007 )
-    match packetx as a1 { [	0123456789,  0123456789 ]
-: tag , ""\n"" : uint8x
-, 00 : Z9_ ,""\" ++ [233]%N ++ runes_of_ascii """  :i64_ [ ""// no comment""
-    , ""`tick`"" ]
-: asx ,
-    } , //
-} options {crc='0' Logon
-=
-""""
-;
-    // packet A { u8 x, }
-    falsey = 4294967296 // trailing space 
-; }
-    packet	string_
-    {
-repeat leftPad { repeat  uint64 x , u8 uint8x `u8 x,` ,	} ,repeat tag options1// packet A { u8 x, }
-,// trailing space 
-int64 /// triple
-trueish
-    @lengthOf( asx )`
-`
-// trailing space 
-//
-,
-    // c
-    match i8i8 as MetaDataX {
-""a\\"" :
-    //x
-    falsey
-    , }, repeat char[ 1 ]
-    As
-    , zchar[42 ]	Pad@lengthOf(
-    repeatCount ) ,
-@leftPad ( '\x00' /// triple
-)
-uint64 string_ `say ""hi""` , @calculatedFrom( ""CRC32""
-) char MetaDataX , // packet A { u8 x, }
-}")).
-Eval vm_compute in ("<<<M1313>>>" ++ check (runes_of_ascii "
-options { trueish =
-    4294967296 ; } root packet float { } packet Header{
-repeat Logon , @tag(
-    0123456789 )  uint8 asx  `say ""hi""` ,int@calculatedFrom( ""a	b"") // " ++ [27880; 37322]%N ++ runes_of_ascii "
-,
-repeat
-    Logon , } packet i64_{ /// triple
-repeat
-char[ 0123456789 ]
-metadata
-`u8 x,`,
-repeat
-f32
-    Packet , repeat crc {	int16 // trailing space 
-body
-    `" ++ [28040; 24687; 31867; 22411]%N ++ runes_of_ascii "` , int32 stringy,
-    // @lengthOf(
-    repeat char[ 65535
-]
-    // " ++ [128512]%N ++ runes_of_ascii " emoji
-    int ,
-    u64 zchar
-// " ++ [27880; 37322]%N ++ runes_of_ascii "
-// " ++ [128512]%N ++ runes_of_ascii " emoji
-, } , @rightPad
-    (	'\x00'  )	@calculatedFrom( ""abc"" )@rightPad ( ' '	)rootA o	, repeat string// a // b
-msg_type,
-//x
-/// triple
-char[
-3
-// `tick` ""quote"" 'q'
-/// triple
-]
-i8i8 `two words`
-//	t
-// trailing space 
-,@calculatedFrom( ""// no comment""	) /// triple
-f32a@lengthOf( Z9_) ,	}
-")).
-Eval vm_compute in ("<<<M3265>>>" ++ check (runes_of_ascii "// top
+    } ,// " ++ [27880; 37322]%N ++ runes_of_ascii "
+} //x")).
+Eval vm_compute in ("<<<M1179>>>" ++ check (runes_of_ascii "// top
 options // c0
 {
     // c1
@@ -953,775 +512,195 @@ i64_ @calculatedFrom( ""a\""b"" // c52a
 , // c54
 } // c55
 ")).
-Eval vm_compute in ("<<<M4448>>>" ++ check (runes_of_ascii "// " ++ [27880; 37322]%N ++ runes_of_ascii "
-  	packet leftPad {  // a // b
-	string
-As`{ , }` ,
-char[ 42]msg_type 
-,
-    @lengthOf( i8i8
-	)
-match Foo as
-
-    matchKey 	 //	t
-	{1
-
-    :chars  ,
-65535
-:
-o
-    7
-:
-    calculatedFrom, [  65535
-    ,
-7 
-,""a	b""] :	int 
-, [
-00 ,
-	0, ""x y""
-    ,
-
-65535//	t
-
-, """ ++ [128512]%N ++ runes_of_ascii """ ,
-	007 ,""it's""
-,
-""""
-]:Packet ,
-	""""
-    :	float,
-}
-
-    , u64
-
-    Logon
-	@calculatedFrom(
-    """ ++ [128512]%N ++ runes_of_ascii """ ),
-
-@calculatedFrom( ""a	b""
-	)
-pack
-    { float32
-charz`line1
-line2` // `tick` ""quote"" 'q'
-	, }
-	, 
-}
-	MetaData
-u128
-
-    { repeatCount
-len`" ++ [233]%N ++ runes_of_ascii "`
-,  BodyLength	//x
-	charz ,
-	u8x
-trueish
-`a\`
-,  Header
-msg_type
-    `line1
-line2`
-
-,
-string
-
-stringy
-,	// " ++ [128512]%N ++ runes_of_ascii " emoji
-
-	char[] u128 `" ++ [233]%N ++ runes_of_ascii "` ,
-    }options{ } ")).
-Eval vm_compute in ("<<<M31>>>" ++ check (runes_of_ascii "packet options1
-    {@leftPad
-( )
-    @calculatedFrom( ""\n"" )
-    @leftPad (
-' ' // " ++ [27880; 37322]%N ++ runes_of_ascii "
-)
-chars
-T `say ""hi""` // " ++ [27880; 37322]%N ++ runes_of_ascii "
-,
-    // @lengthOf(
-    repeat zchar
-{  metadata {
-// @lengthOf(
-// c
-match A as x_y_z {""1"" :
-// " ++ [128512]%N ++ runes_of_ascii " emoji
-// c
-string_// @lengthOf(
-[""// no comment""  ,
-10 ] : Foo""a\\"": Packet [""a	b"",
-    65535 ]
-    :	x
-,
-}
-,
-} , } // " ++ [128512]%N ++ runes_of_ascii " emoji
-,
-@rightPad (
-) f32
-msg_type
-    , match f32a as body { [
-    ""`tick`"" , ""\n"" ,
-    ""a	b"" ,
-""{,}"" , 255 ,""x y"", 3
-]:// @lengthOf(
-x ,
-    ""CRC32""
-: zchar	, ""x y"" :
-rootA // `tick` ""quote"" 'q'
-[ 00
-    ,
-    ""it's""	, 4294967296 ,""CRC32"" ]:
-roots 4294967296 : Logon}, @leftPad
-('0')pack `crlf
-line`
-, }")).
-Eval vm_compute in ("<<<M872>>>" ++ check (runes_of_ascii "
-root // c
-packet len {
-Logon tag `say ""hi""`// c
-, uint16
-// packet A { u8 x, }
-// trailing space 
-Logon ,
-match packetx as Foo	{ 65535// trailing space 
-: asx
-, // @lengthOf(
-""abc"" //
-: x_y_z
-42 :asx} , f64
-trueish
-    ,  @lengthOf(a1 )repeat// " ++ [128512]%N ++ runes_of_ascii " emoji
-char[  4294967296
-]
-    uint8x `two words`
-,	match
-    calculatedFrom as string_ { 4294967296 : crc , ""abc"" :
-    T //	t
-,
-[ 255 ] : msg_type , // c
-}, match MetaDataX as
-len  { 10 : _x// c
-,
-} , match	float
-    as  Pad {
-    ""x y""
-:BodyLength ,
-[""a	b"" ,
-""x y"" ]  : chars
-, 0 : calculatedFrom//x
-, 0123456789
-: stringy
-,
-[ ""abc"" ]
-// c
-// " ++ [128512]%N ++ runes_of_ascii " emoji
-:
-i64_
-    , }
-, }")).
-Eval vm_compute in ("<<<M730>>>" ++ check (runes_of_ascii "//x
-packet Packet
-{ } // " ++ [128512]%N ++ runes_of_ascii " emoji
-packet A { @calculatedFrom(
-    ""a	b""
-    ) @tag(
-    // `tick` ""quote"" 'q'
-    00 ) char[4294967296]u128 `` , } options {  lengthOf = """ ++ [233]%N ++ runes_of_ascii "t" ++ [233]%N ++ runes_of_ascii """
-    ; crc= ""CRC32"" ; }
-packet crc {
-    @tag(255 ) @rightPad ( ) repeat
-    //
-    Pad, zchar[ 3 ] charz @lengthOf( zchar
-)
-`say ""hi""` ,repeat Header string_ `` // @lengthOf(
-,
-len@calculatedFrom(
-    ""`tick`"") ,
-@tag( 65535 )
-    match chars
-as	msg_type {4294967296 : roots
-, """ ++ [233]%N ++ runes_of_ascii "t" ++ [233]%N ++ runes_of_ascii """ :_x ,
-""CRC32"" : leftPad	, // packet A { u8 x, }
-42: MetaDataX,
-// a // b
-// c
-[ ""a	b""]
-: i64_/// triple
-""`tick`"" :
-MetaDataX ,}
-,
-    }
-")).
-Eval vm_compute in ("<<<M761>>>" ++ check (runes_of_ascii "packet packetx { @lengthOf( charz)lengthOf { u64	x_y_z @calculatedFrom( ""abc""
-)
-`tab	here` , }, char zchar @lengthOf(lengthOf
-    ) `two words`, chars Logon
-//
-// @lengthOf(
-`line1
-line2` ,match int	as u128 // " ++ [128512]%N ++ runes_of_ascii " emoji
-{
-1 : asx ,// a // b
-""CRC32"" : Header ,	}
-,
-string_
-,Header{ match u128 as
-    len {  [ 255
-    ,10
-    ,255 ,
-255 , 00 , ""x y""
-, // @lengthOf(
-""" ++ [28040; 24687]%N ++ runes_of_ascii """ ]: len ,[ ""{,}"", 1 ] : _x""1"": o ,
-    ""{,}""
-    //
-    : x ,
-007
-    : stringy
-    ,} // a // b
-, repeat f32a	{ stringy `
-` ,
-    } ,zchar[ 65535 ] charz ,
-    o  , // a // b
-} ,}
-")).
-Eval vm_compute in ("<<<M4275>>>" ++ check (runes_of_ascii "packet rootA {
-    string calculatedFrom @lengthOf(matchKey),
-}
-
-packet rootA {
-    // " ++ [27880; 37322]%N ++ runes_of_ascii "
-    //
-    repeat string string_,
-}
-
-packet x_y_z {
-    repeat string i64_ `two words`,
-    @leftPad()
-    repeat int64 Foo,
-    match chars as int {
-        """ ++ [28040; 24687]%N ++ runes_of_ascii """ : o,
-        /// triple
-        """ ++ [233]%N ++ runes_of_ascii "t" ++ [233]%N ++ runes_of_ascii """ : crc,
-        4294967296 : repeatCount,
-        [1] : As,
-        [
-            255, """ ++ [128512]%N ++ runes_of_ascii """, ""x y"", ""{,}"", 4294967296,
-            """", ""a\""b"", 00
-        ] : u128,
-        // " ++ [128512]%N ++ runes_of_ascii " emoji
-        ""\" ++ [233]%N ++ runes_of_ascii """ : lengthOf,
-    },
-    int64 uint8x,
-}")).
-Eval vm_compute in ("<<<M440>>>" ++ check (runes_of_ascii "packet chars	{
-@calculatedFrom(
-""abc"" ) repeat uint64
-Pad`" ++ [233]%N ++ runes_of_ascii "` ,
-    uint8  len , asx@lengthOf( _x) ,
-    options1 `tab	here` ,
-@lengthOf(  i64_
-) zchar`it's`
-, @tag( 007  )metadata
-,	char[]Foo ,
-    // packet A { u8 x, }
-    } // @lengthOf(
-options { charz = ""\" ++ [233]%N ++ runes_of_ascii """ ; metadata = string;Z9_ = ""it's""
-zchar = u8 }options{
-string_ =  """ ++ [28040; 24687]%N ++ runes_of_ascii """
-;msg_type // packet A { u8 x, }
-=42
-    ;Foo /// triple
-= 0123456789;
-o = int64 ;}	options{i8i8
-= zchar[ 1 ] Foo = 00;
-leftPad = // c
-uint64 Foo =  int64 }")).
-Eval vm_compute in ("<<<M3606>>>" ++ check (runes_of_ascii "
-packet float
-
-{
-	char[
-	00
-
-]
-	u8x	,
-	}	packet  // " ++ [128512]%N ++ runes_of_ascii " emoji
-	A	// @lengthOf(
-  { string i8i8
-, A 	 //x
-	@calculatedFrom( ""a	b""	) `a\`, 
-@tag(	1
-    )
-    chars	@lengthOf(
-Pad
-	)
-    `u8 x,` ,	/// triple
-		match
-
-repeatCount
-as
-    stringy  {
-42 :
-x 3
-: // @lengthOf(
-  tag
-	,[
-00
-	,
-0123456789 ]
-
-:
-
-    packetx  ,
-	[ 
-""" ++ [28040; 24687]%N ++ runes_of_ascii """
-,
-	""packet""
-] : string_,
-}  ,
-	}  options 	 // @lengthOf(
-  	{i8i8
-
-    = """ ++ [233]%N ++ runes_of_ascii "t" ++ [233]%N ++ runes_of_ascii """	Foo = false
-	// packet A { u8 x, }
-    ; Pad =' ' 
-; }")).
-Eval vm_compute in ("<<<M1366>>>" ++ check (runes_of_ascii "MetaData
-matchKey {}packet a1
-    {char[]int`" ++ [28040; 24687; 31867; 22411]%N ++ runes_of_ascii "`	, msg_type @lengthOf( As// trailing space 
-)
-, @leftPad (//	t
-) string roots `// not a comment` , @lengthOf( Logon)string Logon  @lengthOf( crc
-),	msg_type { repeat
-//x
-//	t
-u64 a1 ,}// a // b
-, char[ 65535 ] /// triple
-u @calculatedFrom(/// triple
-""it's""
-    ) ,
-    f32a len, }
-root packet asx
-    { @leftPad (
-    ' ' ) // c
-uint16 uint8x@lengthOf( charz
-// c
-// `tick` ""quote"" 'q'
-) `two words`	, }")).
-Eval vm_compute in ("<<<M382>>>" ++ check (runes_of_ascii "packet x { i64_ , } options // c
-{
-Logon =true
-//	t
-//	t
-} MetaData //x
-f32a { zchar[
-0123456789] string_ , i8i8 // @lengthOf(
-falsey ,
-u8x	string_ , zchar repeatCount `doc`, float64 zchar ,	} root
-    // c
-    packet
-Z9_ {	a1
-options1
-`u8 x,`	, char// `tick` ""quote"" 'q'
-BodyLength `// not a comment`
-    , @lengthOf( metadata )	repeat u`line1
-line2`  ,	@lengthOf(options1
-    ) @lengthOf( zchar )  @calculatedFrom( """ ++ [233]%N ++ runes_of_ascii "t" ++ [233]%N ++ runes_of_ascii """	)x
-u128
-,}
-")).
-Eval vm_compute in ("<<<M639>>>" ++ check (runes_of_ascii "options { A = 4294967296 body =0 tag = ""// no comment"";Packet =00
-    ;  }root packet leftPad { } root
-packet rootA { repeat
-charz {repeatCount{
-    a1 {repeat uint32 stringy	`` , } ,
-    /// triple
-    zchar[ 65535
-    // `tick` ""quote"" 'q'
-    ] tag
-, i64_/// triple
-metadata
-    ,
-a1 // " ++ [27880; 37322]%N ++ runes_of_ascii "
-{repeat zchar[	3
-    ]
-    Foo `two words` ,},
-    } // `tick` ""quote"" 'q'
-, string
-a1  @lengthOf( float )
-, }
-,
-    //x
-    }")).
-Eval vm_compute in ("<<<M3506>>>" ++ check (runes_of_ascii "  packet
-Frame
-{
-
-    u8
-
-HK
-,
-
-    u8	BK,	u8  TK
-
-    ,  match HK
-as  Hdr {
-
-    1 :
-HdrA
-
-    ,
-2
-:  HdrB
-	,  },match
-BK as Body{	1: BodyA,2 :
-BodyB  ,
-    } 
-, match TK
-as
-	Trl 
-{1 :	TrlA,	}
-    ,}
-	packet HdrA
-    {
-	u8
-
-a,
-	}packet	HdrB {
-u16
-
-b  ,
-
-}
-
-packet BodyA 
-{ 
-u32  c ,
-} packet
-
-    BodyB  {
-
-    u64	d , }packet
-TrlA { u8
-
-e
-,  }  root packet  Msg {	Frame	, u8 x , }")).
-Eval vm_compute in ("<<<M3440>>>" ++ check (runes_of_ascii "// top
-packet // c0a
-  // c0b
-B // c1
-{ // c2a
+Eval vm_compute in ("<<<M1404>>>" ++ check (runes_of_ascii "// top
+packet // c0
+MDSnapshotZZ { // c2a
   // c2b
-u8 // c3
-a // c4a
-  // c4b
-,
-    // c5
-} // c6
-root packet P // c9
-{ u8 // c11
-K // c12a
+u8 a
+    // c4
+, } // c6
+packet // c7a
+  // c7b
+OrderACK // c8a
+  // c8b
+{ u16 b
+    // c11
+, // c12a
   // c12b
-, // c13
-match
-    // c14
-K
-    // c15
-as Body // c17a
-  // c17b
-{
-    // c18
-1
-    // c19
-: B // c21
-, }
-    // c23
-, u16 // c25
-L @lengthOf( // c27a
-  // c27b
-Body // c28a
-  // c28b
-) // c29
-, // c30a
-  // c30b
-} // c31a
-  // c31b
-")).
-Eval vm_compute in ("<<<M3844>>>" ++ check (runes_of_ascii "MetaData
-
-metadata
-    {
-char[ 3	// " ++ [128512]%N ++ runes_of_ascii " emoji
-]
-roots  , As zchar
-,u msg_type
-`say ""hi""`  , float32  options1
-`` ,char[]packetx
-
-    ,
-
-    }
-root
-packet f32a
-    {
-    char[]
-MetaDataX
-
-`{ , }`
-
-,}
-	/// triple
-
-  // c
-  	packet
-
-    _x {@lengthOf(
-A	)
-
-    i64 
-x
-    ,int@lengthOf(	// " ++ [128512]%N ++ runes_of_ascii " emoji
-
-	MetaDataX
-
-)
-,	repeat
-BodyLength {
-f32
-	lengthOf
-,
-    }  ,
-
-} ")).
-Eval vm_compute in ("<<<M1168>>>" ++ check (runes_of_ascii "
+} // c13
 packet
-    // `tick` ""quote"" 'q'
-    asx	{	@lengthOf( calculatedFrom
-)
-x float `line1
-line2` ,
-    // " ++ [128512]%N ++ runes_of_ascii " emoji
-    Logon @calculatedFrom(
-/// triple
-// @lengthOf(
-""it's"" )`say ""hi""` ,u16 crc , f64// `tick` ""quote"" 'q'
-a1 ,} packet
-matchKey { @calculatedFrom( """ ++ [28040; 24687]%N ++ runes_of_ascii """ )  asx {
-Header packetx// c
-`doc` , } , repeat Header _x // packet A { u8 x, }
-, Logon , }")).
-Eval vm_compute in ("<<<M3787>>>" ++ check (runes_of_ascii "
-
-  packet
-    calculatedFrom  // c1
-  { @tag( 	 // c3a
-    	// c3b
-  4294967296  // c4
-  ) 	 // c5
-	u // c6a
-    // c6b
-  msg_type 
-// c7
-      , 
-// c8
-char[  // c9
-3 
-// c10
-]  
-  // c11
-	  crc
-
-    // c12
-	@lengthOf( // c13a
-  // c13b
-	len // c14a
-	// c14b
-    )// c15a
-    // c15b
-`u8 x,`
+    // c14
+HTTPServerInfo {
     // c16
-  ,// c17
-  } 
-      // c18")).
-Eval vm_compute in ("<<<M3943>>>" ++ check (runes_of_ascii "packet stringy {
-    falsey @lengthOf(MetaDataX) `crlf
-    line`,
-    match tag as uint8x {
-        ""a\""b"" : charz,
-        00 : repeatCount,
-        10 : Header,
-        ""a	b"" : Pad,
-        65535 : metadata,
-    },
-    @calculatedFrom(""a\""b"")
-    //x
-    char[255] falsey,
-    x_y_z @calculatedFrom(""packet"") `tab	here`,
-}")).
-Eval vm_compute in ("<<<M4430>>>" ++ check (runes_of_ascii "packet string_ {
-    match Pad as Z9_ {
-        [42] : trueish,
-        // trailing space 
-    },
-    float32 x `u8 x,`,
-    @leftPad('\x00')
-    o @lengthOf(x_y_z),
-    msg_type @lengthOf(u) `line1
-        line2`,
-    @calculatedFrom(""a\\"")
-    int @calculatedFrom(""packet""),
-    BodyLength `// not a comment`,
-}")).
-Eval vm_compute in ("<<<M4003>>>" ++ check (runes_of_ascii "// @lengthOf(
-packet _x {
-    @calculatedFrom(""a	b"")
-    T rootA ``,
-    u64 body @calculatedFrom(""a	b"") `two words`,
-    zchar[7] MetaDataX @calculatedFrom(""it's"") `say ""hi""`,
-    // trailing space 
-    // `tick` ""quote"" 'q'
-    f32a {
-        repeat zchar[00] roots `" ++ [233]%N ++ runes_of_ascii "`,
-    },
-}// `tick` ""quote"" 'q'")).
-Eval vm_compute in ("<<<M1612>>>" ++ check (runes_of_ascii "root packet Foo // " ++ [128512]%N ++ runes_of_ascii " emoji
-{ } options {
-    // a // b
-    tag // `tick` ""quote"" 'q'
-= //	t
-""""
-    ; u8x = zchar[0  ] }
-MetaData
-    int {'1' zchar[ 10]
-lengthOf	`` , i64 u8x`// not a comment` ,MetaDataX pack// `tick` ""quote"" 'q'
-`crlf
-line`
-, Logon charz `crlf
-line`
-    ,
-    // a // b
+string s
+    // c18
+, } root // c21a
+  // c21b
+packet // c22
+FIXMsg // c23
+{ // c24
+u8 // c25
+KType , MDSnapshotZZ , repeat // c30a
+  // c30b
+OrderACK
+    // c31
+, // c32a
+  // c32b
+match
+    // c33
+KType // c34a
+  // c34b
+as
+    // c35
+Body // c36
+{ 1 : // c39
+HTTPServerInfo // c40
+, // c41
+2 // c42
+: // c43
+OrderACK // c44a
+  // c44b
+, // c45
+} // c46a
+  // c46b
+, // c47a
+  // c47b
+} // c48a
+  // c48b
+")).
+Eval vm_compute in ("<<<M194>>>" ++ check (runes_of_ascii "// " ++ [128512]%N ++ runes_of_ascii " emoji
+packet// @lengthOf(
+int { match zchar
+as _x {	[ 4294967296 ]
+    :
+x_y_z ,[
+""a\""b"" // @lengthOf(
+]  :chars ,
+    [
+    ""it's"" , ""\" ++ [233]%N ++ runes_of_ascii """ , ""packet""
+    ,""{,}"" ] :
+f32a
+}, x { repeat asx{ zchar[  0123456789
+]crc `crlf
+line`, msg_type	i8i8`crlf
+line` ,
+    uint16
+rootA @calculatedFrom( ""a\\"" )
+    // @lengthOf(
+    , Logon x_y_z
+`" ++ [233]%N ++ runes_of_ascii "` , },
+} , } packet
+u{ match
+    pack as trueish //x
+{ ""1"" : len """ ++ [128512]%N ++ runes_of_ascii """ : leftPad ,4294967296 // @lengthOf(
+:	metadata
+, }
+    ,int T  `line1
+line2` ,f32 Logon
+    , } options {
     }
 ")).
-Eval vm_compute in ("<<<M1555>>>" ++ check (runes_of_ascii "root packet Foo // " ++ [128512]%N ++ runes_of_ascii " emoji
-{ } options {
-    // a // b
-    tag // `tick` ""quote"" 'q'
-= //	t
-""""
-    ; u8x = zchar[0  ] }
-MetaData
-    int {zchar[ 10]
-lengthOf	`` , i64 u8x`// not a comment` , ,MetaDataX pack// `tick` ""quote"" 'q'
-`crlf
-line`
-, Logon charz `crlf
-line`
-    ,
-    // a // b
-    }
+Eval vm_compute in ("<<<M1578>>>" ++ check (runes_of_ascii "root packet options1 {
+    @lengthOf(msg_type)
+    Logon @lengthOf(packetx) `
+    `,
+    As {
+        repeat T `
+        `,
+        float64 Foo `crlf
+        line`,
+        repeat repeatCount x_y_z `a\`,
+        int8 msg_type,
+    },// `tick` ""quote"" 'q'
+    msg_type @lengthOf(body),
+    u64 rootA @calculatedFrom(""" ++ [128512]%N ++ runes_of_ascii """),
+    @calculatedFrom(""packet"")
+    i32 Header,
+    uint32 BodyLength @lengthOf(trueish),
+    @lengthOf(f32a)
+    f32 Z9_ `{ , }`,
+}// a // b")).
+Eval vm_compute in ("<<<M220>>>" ++ check (runes_of_ascii "
+packet	float // a // b
+{ // c
+}
+packet u128 { @calculatedFrom(	""1"") asx x_y_z `" ++ [28040; 24687; 31867; 22411]%N ++ runes_of_ascii "` ,}
+    root packet
+    u8x { repeat uint8x	T
+, }
+packet leftPad
+    {
+i64_,@leftPad ( '0' )
+repeat	tag
+,repeat  uint8x  {	matchKey @calculatedFrom( ""abc""
+    ) , string charz ,
+    }// trailing space 
+,@rightPad
+( )zchar[ 10] charz
+    @calculatedFrom( """ ++ [128512]%N ++ runes_of_ascii """ )	`// not a comment` , // trailing space 
+}
+// @lengthOf(
 ")).
-Eval vm_compute in ("<<<M1436>>>" ++ check (runes_of_ascii "root packet Foo // " ++ [128512]%N ++ runes_of_ascii " emoji
-{ } { options
+Eval vm_compute in ("<<<M235>>>" ++ check (runes_of_ascii "root //x
+packet
+rootA
+{ @leftPad ( '\x00'
+    ) @rightPad
+    (' ' )
     // a // b
-    tag // `tick` ""quote"" 'q'
-= //	t
-""""
-    ; u8x = zchar[0  ] }
-MetaData
-    int {zchar[ 10]
-lengthOf	`` , i64 u8x`// not a comment` ,MetaDataX pack// `tick` ""quote"" 'q'
-`crlf
-line`
-, Logon charz `crlf
-line`
-    ,
-    // a // b
-    }
+    @tag(0 ) repeat zchar[ 3 ] matchKey
+    , // packet A { u8 x, }
+} packet u8x { } options
+    { packetx= '0'
+Pad = '\x00' Logon
+    =  false ;}
+// " ++ [128512]%N ++ runes_of_ascii " emoji
+// c
+MetaData u8x {i32 rootA
+    , MetaDataX zchar`" ++ [233]%N ++ runes_of_ascii "` , // packet A { u8 x, }
+int64 Foo `// not a comment` ,
+}
 ")).
-Eval vm_compute in ("<<<M1596>>>" ++ check (runes_of_ascii "root packet Foo // " ++ [128512]%N ++ runes_of_ascii " emoji
-{ } options {
-    // a // b
-    tag // `tick` ""quote"" 'q'
-= //	t
-""""
-    ; u8x = zchar[0  ] }
-MetaData
-    int {zchar[ 10]
-lengthOf	`` , i64 u8x`// not a comment` ,MetaDataX pack// `tick` ""quote"" 'q'
-`crlf
-line`
-, Logon charz `crlf
-line`
-    }
-    // a // b
-    ,
-")).
-Eval vm_compute in ("<<<M1514>>>" ++ check (runes_of_ascii "root packet Foo // " ++ [128512]%N ++ runes_of_ascii " emoji
-{ } options {
-    // a // b
-    tag // `tick` ""quote"" 'q'
-= //	t
-""""
-    ; u8x = zchar[0  ] }
-MetaData
-    int {zchar[ ]
-lengthOf	`` , i64 u8x`// not a comment` ,MetaDataX pack// `tick` ""quote"" 'q'
-`crlf
-line`
-, Logon charz `crlf
-line`
-    ,
-    // a // b
-    }
-")).
-Eval vm_compute in ("<<<M474>>>" ++ check (runes_of_ascii "options {body // " ++ [27880; 37322]%N ++ runes_of_ascii "
-= u16; asx =char[]
-;	} MetaData
-leftPad { len rootA , int64	BodyLength `say ""hi""` , char[ 00 ] packetx// " ++ [128512]%N ++ runes_of_ascii " emoji
-,char[
-    // a // b
-    42 ] x `// not a comment`  ,
-    int i64_
-//	t
+Eval vm_compute in ("<<<M219>>>" ++ check (runes_of_ascii "root packet x {string
+packetx
+    // @lengthOf(
+    `{ , }`, char stringy`// not a comment`
+, match charz as
+u128
+{ """ ++ [128512]%N ++ runes_of_ascii """
+: _x,0 : options1 // packet A { u8 x, }
+42
+    :trueish , [
+// @lengthOf(
 // `tick` ""quote"" 'q'
-`doc` ,
-char Pad `two words`// packet A { u8 x, }
-, //
-}
+""it's"" , 00
+, """ ++ [28040; 24687]%N ++ runes_of_ascii """  , ""\n""
+    // trailing space 
+    , 255 , 00 ]
+: lengthOf ,
+    1:len
+    , },}
 ")).
-Eval vm_compute in ("<<<M4137>>>" ++ check (runes_of_ascii "packet T {
+Eval vm_compute in ("<<<M1958>>>" ++ check (runes_of_ascii "options {
+    LittleEndian = true;
+    ArrayPrefixLenType = u64;
+    FixedStringPadFromLeft = false;
 }
 
-packet string_ {
-    @tag(7)
-    repeat uint8 rootA,
-    @lengthOf(o)
-    float u,// trailing space 
-    Packet @calculatedFrom(""a\\""),
-    f32 repeatCount `say ""hi""`,
+packet Quote {
 }
 
-packet MetaDataX {
-    match leftPad as Packet {
-        007 : x,
-    },// trailing space 
+root packet Order {
+    i64 Side2,
+    Quote,
+    u32 Px,
+    match Px as Body {
+        [119, 147] : Quote,
+    },
+    u16 Flags @calculatedFrom(""CR\
+    C32""),
 }")).
-Eval vm_compute in ("<<<M1037>>>" ++ check (runes_of_ascii "packet crc // " ++ [27880; 37322]%N ++ runes_of_ascii "
-{  zchar[ 0123456789 ]
-    A `say ""hi""`,repeat char[
-    255 ]u , zchar`// not a comment`//
-,}	packet  uint8x { int16 Packet ,
-repeat uint8x {
-    asx lengthOf , // @lengthOf(
-char[0123456789
-] // packet A { u8 x, }
-asx `line1
-line2`
-    , } ,
-}")).
-Eval vm_compute in ("<<<M3422>>>" ++ check (runes_of_ascii "// top
+Eval vm_compute in ("<<<M1336>>>" ++ check (runes_of_ascii "// top
 options // c0a
   // c0b
 { // c1a
@@ -1747,608 +726,364 @@ u8 // c15
 x // c16
 , // c17
 } ")).
-Eval vm_compute in ("<<<M3211>>>" ++ check (runes_of_ascii "// top
-packet // c0
-Logon // c1
-{ // c2
-@tag( // c3
-42 // c4
-) // c5
-@rightPad // c6
-( // c7
-' ' // c8
-) // c9
-@leftPad // c10
-( // c11
-) // c12
-repeat // c13
-trueish // c14
-{ // c15
-string // c16
-T // c17
-, // c18
-} // c19
-, // c20
-} // c21
+Eval vm_compute in ("<<<M462>>>" ++ check (runes_of_ascii "options
+{
+matchKey = 42/// triple
+x='0' ;
+// packet A { u8 x, }
+//
+charz
+=
+// packet A { u8 x, }
+// trailing space 
+true  ; } MetaData BodyLength BodyLength
+{
+uint8
+pack,zchar[ 1]float ,  float32 x_y_z `` ,u32
+_x,i16 body  , }
 ")).
-Eval vm_compute in ("<<<M3449>>>" ++ check (runes_of_ascii "// top
-options
-    // c0
+Eval vm_compute in ("<<<M559>>>" ++ check (runes_of_ascii "options
 {
-    // c1
-FixedStringPadFromLeft =
-    // c3
-true // c4
-;
-    // c5
-}
-    // c6
-root
-    // c7
-packet P // c9a
-  // c9b
+matchKey = 42/// triple
+x='0' ;
+// packet A { u8 x, }
+//
+charz
+=
+// packet A { u8 x, }
+// trailing space 
+true  ; } MetaData BodyLength
 {
-    // c10
-char[
-    // c11
-4 // c12a
-  // c12b
-] z
-    // c14
-, // c15a
-  // c15b
-} ")).
-Eval vm_compute in ("<<<M4499>>>" ++ check (runes_of_ascii "root packet Foo {
-}
-
-options {
-    // a // b
-    tag = """";
-    u8x = zchar[0]
-}
-
-MetaData int {
-    zchar[10] lengthOf ``,
-    i64 u8x `// not a comment`,
-    MetaDataX pack,
-    Logon charz `crlf
-    line`,
-    // a // b
-}")).
-Eval vm_compute in ("<<<M3800>>>" ++ check (runes_of_ascii "MetaData Packet {
-}
-
-packet asx {
-    @lengthOf(asx)
-    falsey `crlf
-        line`,
-}
-
-packet x {
-    uint32 rootA,
-    u32 options1 `say " ++ [127]%N ++ runes_of_ascii """hi""`,
-    @tag(7)
+uint8
+pack,zchar[ 1]float ,  float32 x_y_z `` ,u32
+_x,i16 body  char[] }
+")).
+Eval vm_compute in ("<<<M507>>>" ++ check (runes_of_ascii "options
+{
+matchKey = 42/// triple
+x='0' ;
+// packet A { u8 x, }
+//
+charz
+=
+// packet A { u8 x, }
+// trailing space 
+true  ; } MetaData BodyLength
+{
+uint8
+pack,zchar[ 1]float , ,  float32 x_y_z `` ,u32
+_x,i16 body  , }
+")).
+Eval vm_compute in ("<<<M398>>>" ++ check (runes_of_ascii "options
+{
+= matchKey 42/// triple
+x='0' ;
+// packet A { u8 x, }
+//
+charz
+=
+// packet A { u8 x, }
+// trailing space 
+true  ; } MetaData BodyLength
+{
+uint8
+pack,zchar[ 1]float ,  float32 x_y_z `` ,u32
+_x,i16 body  , }
+")).
+Eval vm_compute in ("<<<M548>>>" ++ check (runes_of_ascii "options
+{
+matchKey = 42/// triple
+x='0' ;
+// packet A { u8 x, }
+//
+charz
+=
+// packet A { u8 x, }
+// trailing space 
+true  ; } MetaData BodyLength
+{
+uint8
+pack,zchar[ 1]float ,  float32 x_y_z `` ,u32
+_x,body i16  , }
+")).
+Eval vm_compute in ("<<<M1818>>>" ++ check (runes_of_ascii "options {
+    matchKey = 42/// triple
+    x = char[];
     // packet A { u8 x, }
-    msg_type @lengthOf(stringy),
-}")).
-Eval vm_compute in ("<<<M2326>>>" ++ check (runes_of_ascii "MetaData Packet { }packet	asx  { @lengthOf( asx) falsey`crlf
-line`
-,
-    }
-    packet x	{uint32// @lengthOf(
-rootA	,u32 options1 `say ""hi""` , , @tag( 7
-    )// packet A { u8 x, }
-msg_type @lengthOf(
-stringy	)	, }
-
-")).
-Eval vm_compute in ("<<<M2232>>>" ++ check (runes_of_ascii "MetaData Packet { }asx	packet  { @lengthOf( asx) falsey`crlf
-line`
-,
-    }
-    packet x	{uint32// @lengthOf(
-rootA	,u32 options1 `say ""hi""` , @tag( 7
-    )// packet A { u8 x, }
-msg_type @lengthOf(
-stringy	)	, }
-
-")).
-Eval vm_compute in ("<<<M2225>>>" ++ check (runes_of_ascii "MetaData Packet { packet	asx  { @lengthOf( asx) falsey`crlf
-line`
-,
-    }
-    packet x	{uint32// @lengthOf(
-rootA	,u32 options1 `say ""hi""` , @tag( 7
-    )// packet A { u8 x, }
-msg_type @lengthOf(
-stringy	)	, }
-
-")).
-Eval vm_compute in ("<<<M2219>>>" ++ check (runes_of_ascii "MetaData as { }packet	asx  { @lengthOf( asx) falsey`crlf
-line`
-,
-    }
-    packet x	{uint32// @lengthOf(
-rootA	,u32 options1 `say ""hi""` , @tag( 7
-    )// packet A { u8 x, }
-msg_type @lengthOf(
-stringy	)	, }
-
-")).
-Eval vm_compute in ("<<<M2345>>>" ++ check (runes_of_ascii "MetaData Packet { }packet	asx  { @lengthOf( asx) falsey`crlf
-line`
-,
-    }
-    packet x	{uint32// @lengthOf(
-rootA	,u32 options1 `say ""hi""` , @tag( 7
-    )// packet A { u8 x, }
- @lengthOf(
-stringy	)	, }
-
-")).
-Eval vm_compute in ("<<<M781>>>" ++ check (runes_of_ascii "//x
-MetaData	Z9_ // `tick` ""quote"" 'q'
-{ trueish
-stringy``
-, } options
-    {}
-// packet A { u8 x, }
-// " ++ [128512]%N ++ runes_of_ascii " emoji
-packet
-    // a // b
-    calculatedFrom { string charz@lengthOf( options1 ) `{ , }` , }
-")).
-Eval vm_compute in ("<<<M3758>>>" ++ check (runes_of_ascii "// a // b
-packet tag {
-    match As as o {
-        ""`tick`"" : float,
-    },
-    string u128 `two words`,
+    //
+    charz = true;
 }
 
-// " ++ [27880; 37322]%N ++ runes_of_ascii "
-// packet A { u8 x, }
-packet lengthOf {
-    int64 u @calculatedFrom(""" ++ [233]%N ++ runes_of_ascii "t" ++ [233]%N ++ runes_of_ascii """),
+MetaData BodyLength {
+    uint8 pack,
+    zchar[1] float,
+    float32 x_y_z ``,
+    u32 _x,
+    i16 body,
 }")).
-Eval vm_compute in ("<<<M1374>>>" ++ check (runes_of_ascii "// c
-packet // `tick` ""quote"" 'q'
-f32a{ }  MetaData rootA { zchar[007 // trailing space 
-] As
-, A u,a1
-A
+Eval vm_compute in ("<<<M7>>>" ++ check (runes_of_ascii "MetaData trueish {	tag Foo `say ""hi""` , zchar[ 4294967296 ]
+    charz // packet A { u8 x, }
 ,
-} root
-packet  Logon // @lengthOf(
-{	@tag( 1 )	x_y_z
-{ repeat
-u
-_x , } , }")).
-Eval vm_compute in ("<<<M3614>>>" ++ check (runes_of_ascii "packet A {
-    match k as n {
-        [
-            ""a"", ""bb"", ""c c"", ""d"", ""e"",
-            ""f"", ""g"", ""h"", ""i"", ""j"",
-            ""k"", ""l""
-        ] : B,
-        2 : C,
-    },
-}")).
-Eval vm_compute in ("<<<M3677>>>" ++ check (runes_of_ascii "
-// top
-	MetaData// c0
-
-_x 	 // c1
-
-  {  // c2
-    zchar[  // c3
-4294967296	// c4
-      ]	// c5
-      lengthOf// c6
-    `// not a comment`	// c7
-
-  ,// c8
-    } // c9
+/// triple
+// a // b
+Z9_ _x ,
+char[	0123456789 ] lengthOf
+    , i64 u8x `// not a comment` , f32a a1 `doc`,	}
 ")).
-Eval vm_compute in ("<<<M4423>>>" ++ check (runes_of_ascii "packet i8i8 {
-    int64 BodyLength @calculatedFrom(""packet""),
-    @leftPad()
-    zchar[1] calculatedFrom,
-    repeat x_y_z,//	t
-    T A,
-}
-
-MetaData charz {
-}// " ++ [27880; 37322]%N)).
-Eval vm_compute in ("<<<M3860>>>" ++ check (runes_of_ascii "packet A {
-    match k as n {
-        [
-            1, 22, 007, 4, 5,
-            66, 7, 8, 9, 10,
-            11, 12
-        ] : B,
-        2 : C,
-    },
-}")).
-Eval vm_compute in ("<<<M1164>>>" ++ check (runes_of_ascii "packet metadata
-    {
-    @tag( 3 ) repeat	Logon ,}
-    MetaData crc {
-// `tick` ""quote"" 'q'
-// `tick` ""quote"" 'q'
-}
-    root packet
-x_y_z
-    { }
-
-")).
-Eval vm_compute in ("<<<M4148>>>" ++ check (runes_of_ascii "
-options
-	{	repeatCount
-=
-	u16 // `tick` ""quote"" 'q'
-	;
-float
-
-=
-' '  Logon  =  string
-    ;
-packetx
-
-=	// " ++ [128512]%N ++ runes_of_ascii " emoji
-3//
-a1
-
-=
-zchar[ 7 ] }
-")).
-Eval vm_compute in ("<<<M425>>>" ++ check (runes_of_ascii "MetaData metadata {options1 lengthOf , int x_y_z
-    `{ , }`  ,u16	tag `it's` ,i8i8 uint8x ,
-u16
-BodyLength`crlf
-line` , u8x len ``
-,}
-")).
-Eval vm_compute in ("<<<M1013>>>" ++ check (runes_of_ascii "MetaData string_ { char[0123456789 ]
-Pad	,u128 // " ++ [27880; 37322]%N ++ runes_of_ascii "
-Header`` ,Foo u8x ,	leftPad
-    trueish
-, char[
-    /// triple
-    1 ]
-i64_,
-}
-")).
-Eval vm_compute in ("<<<M3636>>>" ++ check (runes_of_ascii "
-
-  packet calculatedFrom
+Eval vm_compute in ("<<<M86>>>" ++ check (runes_of_ascii "
+packet calculatedFrom { } MetaData charz
 {
-	@tag(4294967296
-	)
-
-    u
-msg_type
-
-    ,  char[3
-    ]
-	crc
-@lengthOf(	// c
-len
-
-)
-`u8 x,`
-
-,}
-")).
-Eval vm_compute in ("<<<M1149>>>" ++ check (runes_of_ascii "
-MetaData matchKey {crc
-Pad
-`{ , }`, string
-    roots `tab	here`
-    , stringy u,  uint64 u8x `{ , }`
-    ,int A//
-`u8 x,`
-, }
-")).
-Eval vm_compute in ("<<<M1889>>>" ++ check (runes_of_ascii "packet
+Z9_
+    // @lengthOf(
     Pad // a // b
-{ i8i8 @calculatedFrom( ""a	b"") `u8 x,` ,
-} options{ float// " ++ [128512]%N ++ runes_of_ascii " emoji
-= @lengthOf f64 i64_
-=//	t
-00 }
+, uint64
+// packet A { u8 x, }
+// a // b
+u `" ++ [233]%N ++ runes_of_ascii "` , char[
+00]
+Z9_,	}// `tick` ""quote"" 'q'
+options {} 	 ")).
+Eval vm_compute in ("<<<M713>>>" ++ check (runes_of_ascii "// c
+packet i64_ {	char[] calculatedFrom , } packet
+trueish  { {@calculatedFrom(
+""a\\"" ) o { i32 falsey@lengthOf( uint8x ),
+} , } // `tick` ""quote"" 'q'
+options {// c
+Z9_ = ' '//
+}
 ")).
-Eval vm_compute in ("<<<M4522>>>" ++ check (runes_of_ascii "
-packet o 
-{
-
-    @tag(  42)
-    repeat x {
-    char[
-    0123456789	]
-
-i64_, 
-    // c
-	} 
-,
-	}
-
-    options
-    {}
-
-")).
-Eval vm_compute in ("<<<M491>>>" ++ check (runes_of_ascii "packet crc
-{	}options { a1 = char[ 3] ;
-} root
-packet Pad{ }	packet	crc { int32
-zchar // @lengthOf(
-, } packet pack
-{ }
-")).
-Eval vm_compute in ("<<<M1711>>>" ++ check (runes_of_ascii "root packet /// triple
-rootA {	i32
-MetaDataX@calculatedFrom( ""CRC32"" ) `line1
-line2` , } MetaData BodyLength {
-u8
-rootA")).
-Eval vm_compute in ("<<<M4480>>>" ++ check (runes_of_ascii "
-packet
-    A
-{u16	len
+Eval vm_compute in ("<<<M162>>>" ++ check (runes_of_ascii "packet float {// a // b
 @lengthOf(
-body	)  `a
-b`
-    ,
-u32
-    crc @calculatedFrom(  ""CRC32"")`a
-b` 
-,
-string
-	body
-
-, }")).
-Eval vm_compute in ("<<<M1797>>>" ++ check (runes_of_ascii "packet
-    Pad // a // b
-{ @calculatedFrom( i8i8 ""a	b"") `u8 x,` ,
-} options{ float// " ++ [128512]%N ++ runes_of_ascii " emoji
-= f64 i64_
-=//	t
-00 }
-")).
-Eval vm_compute in ("<<<M1860>>>" ++ check (runes_of_ascii "packet
-    Pad // a // b
-{ i8i8 @calculatedFrom( ""a	b"") `u8 x,` ,
-} options{ float// " ++ [128512]%N ++ runes_of_ascii " emoji
-= f64 i64_
-//	t
-00 }
-")).
-Eval vm_compute in ("<<<M1873>>>" ++ check (runes_of_ascii "packet
-    Pad // a // b
-{ i8i8 @calculatedFrom( ""a	b"") `u8 x,` ,
-} options{ float// " ++ [128512]%N ++ runes_of_ascii " emoji
-= f64 i64_
-=//	t
-00")).
-Eval vm_compute in ("<<<M1818>>>" ++ check (runes_of_ascii "packet
-    Pad // a // b
-{ i8i8 @calculatedFrom( ""a	b"") : ,
-} options{ float// " ++ [128512]%N ++ runes_of_ascii " emoji
-= f64 i64_
-=//	t
-00 }
-")).
-Eval vm_compute in ("<<<M2377>>>" ++ check (runes_of_ascii "MetaData Packet { }packet	asx  { @lengthOf( asx) falsey`crlf
-line`
-,
-    }
-    packet x	{uint32// @lengthO")).
-Eval vm_compute in ("<<<M3585>>>" ++ check (runes_of_ascii "
-MetaData
-lengthOf// a // b
-		{	i64	matchKey
-// " ++ [128512]%N ++ runes_of_ascii " emoji
-		// packet A { u8 x, }
-    `say ""hi""`
-    , }")).
-Eval vm_compute in ("<<<M3344>>>" ++ check (runes_of_ascii "packet calculatedFrom {
-// c
-@tag( 4294967296 ) u msg_type , char[ 3 ] crc @lengthOf( len ) `u8 x,` , }")).
-Eval vm_compute in ("<<<M3754>>>" ++ check (runes_of_ascii "
-MetaData
-
-    charz
-{int8
-	_x
-
-    `tab	here`
-
-    ,
-    u64
-
-    Pad
-
-`say ""hi""` ,
-
-    }
-")).
-Eval vm_compute in ("<<<M3035>>>" ++ check (runes_of_ascii "packet A {
-    Inner {
-        u8 x `x
-`,
-        Deep {
-            u8 y `x
-`,
-        },
-    },
+    T ) repeat charz
+    {
+    // c
+    packetx @calculatedFrom( """ ++ [28040; 24687]%N ++ runes_of_ascii """)
+    `" ++ [233]%N ++ runes_of_ascii "` // " ++ [27880; 37322]%N ++ runes_of_ascii "
+, char[
+4294967296 //x
+]Header	,  }
+    , } /// triple")).
+Eval vm_compute in ("<<<M1749>>>" ++ check (runes_of_ascii "MetaData falsey {
+    uint64 matchKey `// not a comment`,
+    char Pad,
+    int16 Pad `" ++ [28040; 24687; 31867; 22411]%N ++ runes_of_ascii "`,
+    zchar[00] x_y_z,
+    char[] i64_,
+    Logon repeatCount `tab	here`,
 }")).
-Eval vm_compute in ("<<<M1055>>>" ++ check (runes_of_ascii "
-MetaData u { stringy metadata
-`// not a comment` , u8 len
-, _x a1, string
-    Z9_
-    ,
-    }")).
-Eval vm_compute in ("<<<M3220>>>" ++ check (runes_of_ascii "packet Logon { // c
-@tag( 42 ) @rightPad ( ' ' ) @leftPad ( ) repeat trueish { string T , } , }")).
-Eval vm_compute in ("<<<M3252>>>" ++ check (runes_of_ascii "packet Logon { @tag( 42 ) @rightPad ( ' ' ) @leftPad ( ) repeat trueish { string T , // c
-} , }")).
-Eval vm_compute in ("<<<M4272>>>" ++ check (runes_of_ascii "  packet
-A {
-	match
+Eval vm_compute in ("<<<M1935>>>" ++ check (runes_of_ascii "
+MetaData
 
-    k  as n{
+chars
+{
+char[] Header
 
-[1 ,  22 
+`say ""hi""` 
 ,
-""c c"",
 
-4
-	]	:B
-2
+char[] matchKey
+    ,	char[ 1 
+] u8x , zchar
+A
 
-    :
-C
+,
+x  falsey  ,	zchar[42]
 
-    } 
-, }
+    calculatedFrom
+
+, 
+} ")).
+Eval vm_compute in ("<<<M1590>>>" ++ check (runes_of_ascii "
+packet
+i8i8 //x
+	{ 
+int16 // trailing space 
+
+  stringy	// " ++ [128512]%N ++ runes_of_ascii " emoji
+    @calculatedFrom( 
+""// no comment""
+	) ,
+} 
+packet
+_x
+    {
+
+    }
 ")).
-Eval vm_compute in ("<<<M3592>>>" ++ check (runes_of_ascii "packet A {
+Eval vm_compute in ("<<<M1304>>>" ++ check (runes_of_ascii "// top
+MetaData // c0
+_x // c1
+{ // c2
+zchar[ // c3
+4294967296 // c4
+] // c5
+lengthOf // c6
+`// not a comment` // c7
+, // c8
+} // c9
+")).
+Eval vm_compute in ("<<<M622>>>" ++ check (runes_of_ascii "MetaData
+    // trailing space 
+    matchKey
+{ u64 chars // a // b
+,char[] lengthOf lengthOf `// not a comment`
+    , //	t
+}")).
+Eval vm_compute in ("<<<M1679>>>" ++ check (runes_of_ascii "packet
+	calculatedFrom{@tag(
+
+    4294967296 )u
+msg_type
+, 	 // c
+    char[
+
+3  ] crc
+@lengthOf(len	)
+`u8 x,` , 
+}
+")).
+Eval vm_compute in ("<<<M655>>>" ++ check (runes_of_ascii "MetaData
+    // trailing space 
+    matchKey
+{ u64 chars // a // b
+,char[] lengthOf `?// not a comment`
+    , //	t
+}")).
+Eval vm_compute in ("<<<M611>>>" ++ check (runes_of_ascii "MetaData
+    // trailing space 
+    matchKey
+{ u64 chars // a // b
+char[] lengthOf `// not a comment`
+    , //	t
+}")).
+Eval vm_compute in ("<<<M1408>>>" ++ check (runes_of_ascii "
+
+  packet FooBar 
+{u8
+a,  }  packet
+
+    foo_bar 
+{u16	b ,
+    }
+root packet
+    R
+    {FooBar ,foo_bar
+,
+} ")).
+Eval vm_compute in ("<<<M2013>>>" ++ check (runes_of_ascii "
+packet
+	A
+
+    {
+match
+k
+
+    as
+n{
+    [ ""a""
+, 22
+,
+
+    ""c c"" 
+]:
+B 
+,
+
+2 :	C
+    }
+
+    ,
+	}
+")).
+Eval vm_compute in ("<<<M1290>>>" ++ check (runes_of_ascii "packet calculatedFrom { @tag( 4294967296 ) u msg_type , char[ 3 ] crc @lengthOf( len ) `u8 x,` , }
+// c
+")).
+Eval vm_compute in ("<<<M1275>>>" ++ check (runes_of_ascii "packet calculatedFrom { @tag( 4294967296 ) u msg_type , char[ 3 ] // c
+crc @lengthOf( len ) `u8 x,` , }")).
+Eval vm_compute in ("<<<M895>>>" ++ check (runes_of_ascii "packet A {
+  match k as n {
+    [1, ""bb"", 007, ""d"", 5, ""f"", 7, ""h"", 9, ""j"", 11] : B
+    2 : C
+  },
+}")).
+Eval vm_compute in ("<<<M1172>>>" ++ check (runes_of_ascii "packet Logon { @tag( 42 ) @rightPad ( ' ' ) @leftPad ( ) repeat trueish { string T , } , } // c
+")).
+Eval vm_compute in ("<<<M1153>>>" ++ check (runes_of_ascii "packet Logon { @tag( 42 ) @rightPad ( ' ' ) @leftPad (
+// c
+) repeat trueish { string T , } , }")).
+Eval vm_compute in ("<<<M886>>>" ++ check (runes_of_ascii "packet A {
+  match k as n {
+    [1, 22, ""c c"", 4, 5, ""f"", 7, 8, ""i"", 10] : B
+    2 : C
+  },
+}")).
+Eval vm_compute in ("<<<M1501>>>" ++ check (runes_of_ascii "  packet 
+A
+{match
+k
+    as
+
+    n
+
+    {
+1
+	: 
+B// a
+// b
+    2
+:  C }
+    , 
+}
+
+")).
+Eval vm_compute in ("<<<M968>>>" ++ check (runes_of_ascii "packet A {
+    u32 crc @calculatedFrom(""x\
+y""),
+    @calculatedFrom(""x\
+y"") u8 y,
+}")).
+Eval vm_compute in ("<<<M832>>>" ++ check (runes_of_ascii "packet A {
+  match k as n {
+    [""a"", 22, ""c c"", 4, ""e"", 66] : B
+    2 : C
+  },
+}")).
+Eval vm_compute in ("<<<M1236>>>" ++ check (runes_of_ascii "packet o { @tag( 42 ) repeat x { char[ 0123456789 ] i64_ , } // c
+, } options { }")).
+Eval vm_compute in ("<<<M915>>>" ++ check (runes_of_ascii "packet A { Inner { match k as n { [1,22,007,4,5,66,7,8,9,10,11,12] : B, }, }, }")).
+Eval vm_compute in ("<<<M1519>>>" ++ check (runes_of_ascii "packet A {
     match k as n {
-        [""a"", ""bb"", ""c c"", ""d""] : B,
+        [1, ""bb""] : B,
         2 : C,
     },
 }")).
-Eval vm_compute in ("<<<M3913>>>" ++ check (runes_of_ascii "packet
-    A {
-match
-	k as
+Eval vm_compute in ("<<<M1720>>>" ++ check (runes_of_ascii "
+packet A{ match k
+
+    as 
 n
-
-{
-[
-""a"" 
-, 22
-	,
-
-    ""c c"" ]  :
-
-    B 
-2  :	C},
-	}")).
-Eval vm_compute in ("<<<M1458>>>" ++ check (runes_of_ascii "root packet Foo // " ++ [128512]%N ++ runes_of_ascii " emoji
-{ } options {
-    // a // b
-    tag // `tick` ""quote"" 'q'
-=")).
-Eval vm_compute in ("<<<M1999>>>" ++ check (runes_of_ascii "root
-packet crc
-    { f32a @calculatedFrom( """ ++ [233]%N ++ runes_of_ascii "t" ++ [233]%N ++ runes_of_ascii """ )
-    BodyLength, lengthOf `` ,  }")).
-Eval vm_compute in ("<<<M4428>>>" ++ check (runes_of_ascii "
-
-  packet
-o {
-
-@rightPad
-
-    ( ) // trailing space 
-  x_y_z 
-calculatedFrom
-
-,}")).
-Eval vm_compute in ("<<<M1989>>>" ++ check (runes_of_ascii "root
-packet crc
-    { f32a @calculatedFrom( ( )
-    `say ""hi""`, lengthOf `` ,  }")).
-Eval vm_compute in ("<<<M3319>>>" ++ check (runes_of_ascii "packet o { @tag( 42 ) repeat x { char[ 0123456789 ] i64_
-// c
-, } , } options { }")).
-Eval vm_compute in ("<<<M3621>>>" ++ check (runes_of_ascii "options {
-    FixedStringPadFromLeft = true;
-}
-
-root packet P {
-    char[4] z,
-}")).
-Eval vm_compute in ("<<<M4140>>>" ++ check (runes_of_ascii "packet A {
-    // a
-    @tag(1)
-    u8 x,// b
-    // c
-    @tag(2)
-    u8 y,
-}")).
-Eval vm_compute in ("<<<M4473>>>" ++ check (runes_of_ascii "root packet Z9_ {
-    @rightPad()
-    packetx `" ++ [233]%N ++ runes_of_ascii "`,
-}
-
-root packet falsey {
-}")).
-Eval vm_compute in ("<<<M2158>>>" ++ check (runes_of_ascii "root
-    // `tick` ""quote"" 'q'
-    packet packet As { trueish Packet , }
-")).
-Eval vm_compute in ("<<<M3744>>>" ++ check (runes_of_ascii "packet  A
-
-    {
-
-    repeat// a
-  B // b
-  b	// c
-		`d` // e
-,
-}")).
-Eval vm_compute in ("<<<M3411>>>" ++ check (runes_of_ascii "MetaData _x { zchar[ 4294967296 ] lengthOf `// not a comment` , // c
-}")).
-Eval vm_compute in ("<<<M2187>>>" ++ check (runes_of_ascii "root
-    // `tick` ""quote"" 'q'
-    packet As { trueish Packet , } }
-")).
-Eval vm_compute in ("<<<M3617>>>" ++ check (runes_of_ascii "MetaData M {
-    u8 x `tab
-        	x`,
-    T t `tab
-        	x`,
-}")).
-Eval vm_compute in ("<<<M2164>>>" ++ check (runes_of_ascii "root
-    // `tick` ""quote"" 'q'
-    packet = { trueish Packet , }
-")).
-Eval vm_compute in ("<<<M3003>>>" ++ check (runes_of_ascii "packet A {
-    B b `a
-b`,
-    B `a
-b`,
-    repeat B bs `a
-b`,
-}")).
-Eval vm_compute in ("<<<M4077>>>" ++ check (runes_of_ascii "
-
-  packet
-    i64_
 	{
+	[
+""a""] :
+    B
 
-@calculatedFrom(
-""\" ++ [233]%N ++ runes_of_ascii """) u16 
-a1
-,
+2 : C}
+
+    ,
 }
-")).
-Eval vm_compute in ("<<<M4468>>>" ++ check (runes_of_ascii "
-MetaData 
-zchar
-{
-zchar[ 3
-
-    ]
-
-Pad  // c
-    ,	}
 
 ")).
-Eval vm_compute in ("<<<M3015>>>" ++ check (runes_of_ascii "packet A {
+Eval vm_compute in ("<<<M1318>>>" ++ check (runes_of_ascii "MetaData _x { zchar[ 4294967296
+// c
+] lengthOf `// not a comment` , }")).
+Eval vm_compute in ("<<<M850>>>" ++ check (runes_of_ascii "packet A { Inner { match k as n { [1,22,007,4,5,66,7] : B, }, }, }")).
+Eval vm_compute in ("<<<M777>>>" ++ check (runes_of_ascii "packet A {
+  match k as n {
+    [1, 22] : B,
+    2 : C
+  },
+}")).
+Eval vm_compute in ("<<<M929>>>" ++ check (runes_of_ascii "packet A {
     B b `
 `,
     B `
@@ -2356,93 +1091,34 @@ Eval vm_compute in ("<<<M3015>>>" ++ check (runes_of_ascii "packet A {
     repeat B bs `
 `,
 }")).
-Eval vm_compute in ("<<<M1907>>>" ++ check (runes_of_ascii "
-packet	As @calculatedFrom( {//x
-""{,}""	)lengthOf , } 	 ")).
-Eval vm_compute in ("<<<M530>>>" ++ check (runes_of_ascii "packet	_x  {repeat crc { char[
-7 ]
-float , }
-, } 	 ")).
-Eval vm_compute in ("<<<M2404>>>" ++ check (runes_of_ascii "MetaData A
-{
-i64
-chars	@x, } // `tick` ""quote"" 'q'")).
-Eval vm_compute in ("<<<M4354>>>" ++ check (runes_of_ascii "  // " ++ [128512]%N ++ runes_of_ascii " emoji
-options
-	{
-
-u128
-    = '\x00'
-
-;}
+Eval vm_compute in ("<<<M1072>>>" ++ check (runes_of_ascii "packet A {} packet B {} MetaData M {} options {}")).
+Eval vm_compute in ("<<<M1103>>>" ++ check (runes_of_ascii "
+// c
+MetaData zchar { zchar[ 3 ] Pad , }")).
+Eval vm_compute in ("<<<M170>>>" ++ check (runes_of_ascii "options { Foo
+    //	t
+    = string }
 ")).
-Eval vm_compute in ("<<<M1775>>>" ++ check (runes_of_ascii "options ~ { }options {  } // `tick` ""quote"" 'q'")).
-Eval vm_compute in ("<<<M2175>>>" ++ check (runes_of_ascii "root
-    // `tick` ""quote"" 'q'
-    packet As {")).
-Eval vm_compute in ("<<<M1756>>>" ++ check (runes_of_ascii "options { }options   } // `tick` ""quote"" 'q'")).
-Eval vm_compute in ("<<<M54>>>" ++ check (runes_of_ascii "  MetaData
-u128{ uint32 lengthOf ,
-    }
-")).
-Eval vm_compute in ("<<<M3025>>>" ++ check (runes_of_ascii "root packet A {
-    u8 x `a
-    b
-  c`,
-}")).
-Eval vm_compute in ("<<<M2767>>>" ++ check (runes_of_ascii "?.FnyCC|]4Q^]Wpe|<8w(&q'w{$Q$6>[FB=&=G]#")).
-Eval vm_compute in ("<<<M2140>>>" ++ check (runes_of_ascii "MetaData x
-{// " ++ [128512]%N ++ runes_of_ascii " emoji
-/i16 stringy , }")).
-Eval vm_compute in ("<<<M2716>>>" ++ check (runes_of_ascii "*IP{x[7V22]v- 1&ZP{7Zwd8_Yk146R_E;GKs+")).
-Eval vm_compute in ("<<<M3160>>>" ++ check (runes_of_ascii "MetaData M {
-}// c
-MetaData N {
-}// d")).
-Eval vm_compute in ("<<<M3177>>>" ++ check (runes_of_ascii "root // a
- packet // b
- A // c
- { }")).
-Eval vm_compute in ("<<<M2828>>>" ++ check (runes_of_ascii "u64 root options `` char[] """" = :")).
-Eval vm_compute in ("<<<M2119>>>" ++ check (runes_of_ascii "MetaData x
-{// " ++ [128512]%N ++ runes_of_ascii " emoji
-i16  , }")).
-Eval vm_compute in ("<<<M3088>>>" ++ check (runes_of_ascii "packet A {
- u8 x `d" ++ [8192]%N ++ runes_of_ascii "`, // c" ++ [8192]%N ++ runes_of_ascii "
-}")).
-Eval vm_compute in ("<<<M3974>>>" ++ check (runes_of_ascii "// c" ++ [8287]%N ++ runes_of_ascii "
-packet
-    A {
-    }
-
-")).
-Eval vm_compute in ("<<<M2588>>>" ++ check (runes_of_ascii "packet A { x @lengthOf(), }")).
-Eval vm_compute in ("<<<M2123>>>" ++ check (runes_of_ascii "MetaData x
-{// " ++ [128512]%N ++ runes_of_ascii " emoji
-i16")).
-Eval vm_compute in ("<<<M2719>>>" ++ check (runes_of_ascii ";" ++ [65533; 65533]%N ++ runes_of_ascii "M" ++ [29; 4; 65533; 37727]%N ++ runes_of_ascii "nK?" ++ [19; 65533; 65533; 65533]%N ++ runes_of_ascii "B" ++ [19; 16]%N ++ runes_of_ascii "%" ++ [65533; 65533; 65533; 65533]%N ++ runes_of_ascii "<" ++ [65533]%N)).
-Eval vm_compute in ("<<<M2665>>>" ++ check (runes_of_ascii "options { options = 1; }")).
-Eval vm_compute in ("<<<M2100>>>" ++ check (runes_of_ascii "MetaData A { u64 a" ++ [769]%N ++ runes_of_ascii "b, }")).
-Eval vm_compute in ("<<<M2561>>>" ++ check (runes_of_ascii "packet A { repeat u8 }")).
-Eval vm_compute in ("<<<M3774>>>" ++ check (runes_of_ascii "root packet roots {
-}")).
-Eval vm_compute in ("<<<M2570>>>" ++ check (runes_of_ascii "packet A { x y z, }")).
-Eval vm_compute in ("<<<M2026>>>" ++ check (runes_of_ascii "root
-packet crc
- ")).
-Eval vm_compute in ("<<<M3111>>>" ++ check (runes_of_ascii "packet A {
+Eval vm_compute in ("<<<M1089>>>" ++ check (runes_of_ascii "packet A { @tag( // a
+ 1 ) u8 x, }")).
+Eval vm_compute in ("<<<M1851>>>" ++ check (runes_of_ascii "packet int {
 }
-// c" ++ [8287]%N)).
-Eval vm_compute in ("<<<M2759>>>" ++ check ([65533; 65533; 65533; 65533; 65533; 65533]%N ++ runes_of_ascii "|G" ++ [65533; 65533; 65533; 65533; 7; 65533; 65533]%N ++ runes_of_ascii "qb")).
-Eval vm_compute in ("<<<M2657>>>" ++ check (runes_of_ascii "options { a 1; }")).
-Eval vm_compute in ("<<<M2628>>>" ++ check (runes_of_ascii "packet A { } ;")).
-Eval vm_compute in ("<<<M532>>>" ++ check (runes_of_ascii " /// triple")).
-Eval vm_compute in ("<<<M2480>>>" ++ check (runes_of_ascii "@leftPadx")).
-Eval vm_compute in ("<<<M3622>>>" ++ check (runes_of_ascii "// c" ++ [8232]%N ++ runes_of_ascii "
-")).
-Eval vm_compute in ("<<<M2430>>>" ++ check (runes_of_ascii "charz")).
-Eval vm_compute in ("<<<M3115>>>" ++ check (runes_of_ascii "// c" ++ [11]%N)).
-Eval vm_compute in ("<<<M2679>>>" ++ check (runes_of_ascii "
-	 ")).
-Eval vm_compute in ("<<<M2670>>>" ++ check (runes_of_ascii "{ }")).
-Eval vm_compute in ("<<<M2453>>>" ++ check (runes_of_ascii "a")).
+
+packet u128 {
+}")).
+Eval vm_compute in ("<<<M916>>>" ++ check (runes_of_ascii "packet A {
+    u8 x `a
+b`,
+}")).
+Eval vm_compute in ("<<<M1183>>>" ++ check (runes_of_ascii "// c
+options { u8x = 3 }")).
+Eval vm_compute in ("<<<M769>>>" ++ check (runes_of_ascii "N"".iUCO#o(E!r_snCd~>|")).
+Eval vm_compute in ("<<<M990>>>" ++ check (runes_of_ascii "packet A {
+}
+// c" ++ [133]%N)).
+Eval vm_compute in ("<<<M728>>>" ++ check (runes_of_ascii "// only a comment")).
+Eval vm_compute in ("<<<M1640>>>" ++ check (runes_of_ascii "
+packet
+A
+{ }")).
+Eval vm_compute in ("<<<M984>>>" ++ check (runes_of_ascii "// c" ++ [160]%N)).
